@@ -4,7 +4,10 @@ import (
 	"fmt"
 	"sync/atomic"
 
+	pb "google.golang.org/protobuf/proto"
+
 	"github.com/janelia-flyem/dvid/datastore"
+	"github.com/janelia-flyem/dvid/datatype/common/proto"
 	"github.com/janelia-flyem/dvid/dvid"
 	"github.com/janelia-flyem/dvid/storage"
 
@@ -30,8 +33,11 @@ func c01E2E(c *vlib.Ctx, states, transitions, traces *int64) {
 	for _, cf := range cfgs {
 		var specs []dagSpec
 		enumDAGs(cf.n, func(d dagSpec) { specs = append(specs, d) })
-		vlib.Par(len(specs), 16, func(si int) {
-			spec := specs[si]
+		// every DAG is built twice: writes as single-key requests, and with all puts of a node sent as ONE batch request
+		// (POST keyvalues) after the node's deletes - the batch path clears same-version tombstones inside one write batch
+		vlib.Par(2*len(specs), 16, func(sj int) {
+			spec := specs[sj/2]
+			batchMode := sj%2 == 1
 			n := cf.n
 			total := 1
 			for i := 0; i < n; i++ {
@@ -60,25 +66,71 @@ func c01E2E(c *vlib.Ctx, states, transitions, traces *int64) {
 			uuids := []string{root}
 			var ntrans int64
 			writeNode := func(i int) bool {
+				var batch []*proto.KeyValue
 				for code := 0; code < total; code++ {
 					key := fmt.Sprintf("k%d", code)
 					val := fmt.Sprintf("v%d@%d", code, i)
 					url := "node/" + uuids[i] + "/kv/key/" + key
 					var rs []vsrv.Resp
+					put := func() {
+						if batchMode {
+							batch = append(batch, &proto.KeyValue{Key: key, Value: []byte(val)})
+						} else {
+							rs = append(rs, vsrv.PostS(url, val))
+						}
+					}
 					switch placeOf(code, i) {
 					case 1:
-						rs = append(rs, vsrv.PostS(url, val))
+						put()
 					case 2:
 						rs = append(rs, vsrv.Delete(url))
 					case 3:
 						rs = append(rs, vsrv.PostS(url, val+"-early"), vsrv.Delete(url))
 					case 4:
-						rs = append(rs, vsrv.Delete(url), vsrv.PostS(url, val))
+						rs = append(rs, vsrv.Delete(url))
+						put()
 					}
 					for _, r := range rs {
 						ntrans++
 						if !r.OK() {
 							fail("write", r)
+							return false
+						}
+					}
+				}
+				if len(batch) > 0 {
+					// odd nodes: the HTTP batch request (POST keyvalues); even nodes: one storage write batch through the
+					// versioned context (PutRange), the path block / index / span writers use
+					ntrans++
+					if i%2 == 1 {
+						body, _ := pb.Marshal(&proto.KeyValues{Kvs: batch})
+						if r := vsrv.Post("node/"+uuids[i]+"/kv/keyvalues", body); !r.OK() {
+							fail("batch-write", r)
+							return false
+						}
+					} else {
+						data, err := datastore.GetDataByUUIDName(dvid.UUID(root), "kv")
+						var db storage.OrderedKeyValueDB
+						if err == nil {
+							db, err = datastore.GetOrderedKeyValueDB(data)
+						}
+						vid, err2 := datastore.VersionFromUUID(dvid.UUID(uuids[i]))
+						if err != nil || err2 != nil {
+							fail("batch-write", vsrv.Resp{Code: 500, Body: []byte(fmt.Sprint(err, err2))})
+							return false
+						}
+						var tkvs []storage.TKeyValue
+						for _, kv := range batch {
+							tk, _ := kvTKey(kv.Key)
+							cc := data.(interface {
+								Compression() dvid.Compression
+								Checksum() dvid.Checksum
+							})
+							ser, _ := dvid.SerializeData(kv.Value, cc.Compression(), cc.Checksum())
+							tkvs = append(tkvs, storage.TKeyValue{K: tk, V: ser})
+						}
+						if err := db.PutRange(datastore.NewVersionedCtx(data, vid), tkvs); err != nil {
+							fail("batch-write", vsrv.Resp{Code: 500, Body: []byte(err.Error())})
 							return false
 						}
 					}
@@ -150,7 +202,7 @@ func c01E2E(c *vlib.Ctx, states, transitions, traces *int64) {
 					vctx := datastore.NewVersionedCtx(data, vid)
 					tk, _ := kvTKey(key)
 					dbv, dberr := db.Get(vctx, tk)
-					rep := map[string]interface{}{"dag": spec, "placement_per_node(0 none,1 put,2 delete,3 put+delete,4 delete+put)": raw, "query": v, "expected_live_nodes": live}
+					rep := map[string]interface{}{"dag": spec, "puts_sent_as_one_batch_per_node": batchMode, "placement_per_node(0 none,1 put,2 delete,3 put+delete,4 delete+put)": raw, "query": v, "expected_live_nodes": live}
 					cls := c01Class(spec, place, v, live)
 					if nontrivialE2E(anc, place, v) {
 						c.NontrivialDistinct(1)
